@@ -1283,7 +1283,7 @@ func (f *frame) inferFrames(b *ssa.BasicBlock, li *loopInfo, phis []*ssa.Phi, st
 		for _, g := range goals {
 			sb.WriteString("(push 1)\n(assert (not " + g + "))\n(check-sat)\n(pop 1)\n")
 		}
-		ans, _, _ := runSolver(&solvers[0], sb.String(), 3000, len(goals))
+		ans, _, _ := runSolver(&solvers[0], sb.String(), 800, len(goals))
 		var keep []string
 		for i, c := range cands {
 			if i < len(ans) && ans[i] == "unsat" {
